@@ -1,7 +1,14 @@
 #!/bin/bash
-# tools/run_benign.sh <name> <Cxx...> : apply selftest/benign/<name>.diff to /repo, run the given checks, show violations, restore
+# tools/run_benign.sh <name> <Cxx...> : apply selftest/benign/<name>.diff to a scratch worktree of /repo (never to /repo itself),
+# run the given checks against it (SQLGREP_REPO), show violations.  The worktree /tmp/verif-dev-wt is created on demand and reused.
 N=$1; shift
-cd /repo && git apply /verif/selftest/benign/$N.diff || { echo "does not apply"; exit 2; }
+WT=${VERIF_DEV_WT:-/tmp/verif-dev-wt}
+[ -d $WT ] || git -C /repo worktree add --detach $WT HEAD -q
+git -C $WT reset -q --hard HEAD; git -C $WT clean -fdq src
+P=/verif/selftest/benign/$N.diff; [ -f $P ] || P=$N
+git -C $WT apply $P || { echo "does not apply"; exit 2; }
 cd /verif
-for c in "$@"; do ./check $c 2>&1 | grep -A${LINES_AFTER:-4} "violated\|^ERROR\|Traceback" | grep -v "^VIOLATION" | head -${MAXL:-40}; done
-git -C /repo checkout -- . ; git -C /repo clean -fdq src
+EV=$(mktemp -d /tmp/dev-ev-XXXX)
+for c in "$@"; do SQLGREP_REPO=$WT VERIF_EVIDENCE_DIR=$EV VERIF_KEEP_FACTS=40 ./check $c 2>&1 | grep -A${LINES_AFTER:-4} "violated\|^ERROR\|Traceback" | grep -v "^VIOLATION" | head -${MAXL:-40}; done
+rm -rf $EV
+git -C $WT reset -q --hard HEAD
